@@ -72,6 +72,17 @@ Theorem C17_parse_render_any_line_length : forall (pf : bytes -> option N) (rf :
 Proof. exact parse_render_any_length. Qed.
 Print Assumptions C17_parse_render_any_line_length.
 
+(* the inside of a value is free: between two non-space ends every byte except
+   newline and '#' (and braces) may occur - carriage returns, tabs, form feeds,
+   Unicode spaces, control characters - and the record still parses back.  Only
+   '\n' separates lines. *)
+Theorem C17_parse_render_interior_bytes : forall (pf : bytes -> option N) (rf : N -> bytes) (m : bytes),
+  has_byte 10 m = false -> has_byte 35 m = false -> has_byte 123 m = false -> has_byte 125 m = false ->
+  let r := mkChart (120 :: m ++ [120]) [] [] [] [] [] [] 0%Z 0 [] in
+  parse pf (render_canonical rf false [r]) = POk [r].
+Proof. exact parse_render_interior. Qed.
+Print Assumptions C17_parse_render_interior_bytes.
+
 (* the executable oracle used on the implementation's answers is exact *)
 Theorem C17_roundtrip_oracle : forall rs res, roundtrip_ok rs res = true <-> res = POk rs.
 Proof. exact roundtrip_ok_iff. Qed.
@@ -294,6 +305,14 @@ Proof. vm_compute. reflexivity. Qed.
 Example C17_example_parse :
   parse ex_pf (render_canonical ex_rf true [ex_rec2; ex_rec1]) = POk [ex_rec2; ex_rec1].
 Proof. vm_compute. reflexivity. Qed.
+(* a carriage return inside a title and inside a bucket name written on its own line *)
+Definition ex_rec_cr : chart :=
+  mkChart (s2b "progress:" ++ [13] ++ s2b "100% done") [] [] [] [] [] (s2b "gopls/editor:{v" ++ [13] ++ s2b "im,emacs}") 0%Z 0 [].
+Example C17_example_interior_cr :
+  valid_record ex_pf ex_rf ex_rec_cr = true /\ style_ok ex_rec_cr (canon_rs true) = true /\
+  parse ex_pf (render_canonical ex_rf true [ex_rec_cr]) = POk [ex_rec_cr].
+Proof. repeat split; vm_compute; reflexivity. Qed.
+
 (* errors are reachable: the cases of TestParseErrors *)
 Example C17_example_errors :
   parse ex_pf (s2b "
